@@ -9,7 +9,7 @@ visible: every worker registers a ``sys.monitoring`` tool (no source change, CPy
 * ``BRANCH`` events, only on the code objects that belong to ``<repo>/mosaik/*.py`` (local events;
   not disabled, because ``DISABLE`` works per instruction and would hide the second arm),
 
-and returns ``{file: [lines]}`` and ``{file: [[line_of_branch, line_of_target], ...]}``.  The driver
+and returns ``{file: [lines]}`` and ``{file: [[line_of_branch, offset_of_target], ...]}``.  The driver
 merges the workers' sets, compares them with the statements that *exist* (``co_lines()`` of every
 code object compiled from the file as it is in the working tree now) and writes
 ``coverage.code_reach`` into the evidence: per anchored file the reached/existing statement counts, the
@@ -88,7 +88,9 @@ def start(repo: str):
                     m[o] = last
             off2line[cid] = m
         fn = real(code.co_filename)
-        arms.setdefault(fn[len(prefix):], set()).add((m.get(src) or 0, m.get(dst) or 0))
+        # an arm is identified by the line of the branch instruction and the *offset* it continued at (both arms of
+        # a one-line conditional are on the same line)
+        arms.setdefault(fn[len(prefix):], set()).add((m.get(src) or 0, dst))
 
     _keep: List = []
     mon.register_callback(tool, mon.events.LINE, on_line)
